@@ -39,6 +39,10 @@ type ySched struct {
 	starve  string // yield point whose goroutines are resumed only when nobody else can move
 	steps   int
 	overtak int // resumptions that overtook a starved goroutine
+	// recording order of failures: only one goroutine at a time is let through "task.fail" (the point just before the
+	// error is recorded); rec_begin is logged before it is resumed, rec_end when it reached its next yield point
+	casTask int // executor task id inside that window, -1 if none
+	log     func(map[string]any)
 }
 
 func (s *ySched) hook(point string, task int) {
@@ -47,6 +51,10 @@ func (s *ySched) hook(point string, task int) {
 	}
 	g := &yG{point, task, make(chan struct{})}
 	s.mu.Lock()
+	if s.casTask == task && point != "task.fail" && point != "f.mid" {
+		s.log(map[string]any{"ev": "rec_end", "i": task + 1}) // the error of this task has been recorded by now
+		s.casTask = -1
+	}
 	s.parked = append(s.parked, g)
 	s.mu.Unlock()
 	select {
@@ -63,6 +71,9 @@ func (s *ySched) pick(lastResort bool) *yG {
 	var cand []int
 	starved := 0
 	for i, g := range s.parked {
+		if g.point == "task.fail" && s.casTask >= 0 {
+			continue // another failure is being recorded
+		}
 		if g.point == s.starve {
 			starved++
 			continue
@@ -73,8 +84,14 @@ func (s *ySched) pick(lastResort bool) *yG {
 		if !lastResort || len(s.parked) == 0 {
 			return nil
 		}
-		for i := range s.parked {
+		for i, g := range s.parked {
+			if g.point == "task.fail" && s.casTask >= 0 {
+				continue
+			}
 			cand = append(cand, i)
+		}
+		if len(cand) == 0 {
+			return nil
 		}
 	} else if starved > 0 {
 		s.overtak++
@@ -83,6 +100,10 @@ func (s *ySched) pick(lastResort bool) *yG {
 	g := s.parked[i]
 	s.parked = append(s.parked[:i], s.parked[i+1:]...)
 	s.steps++
+	if g.point == "task.fail" {
+		s.casTask = g.task
+		s.log(map[string]any{"ev": "rec_begin", "i": g.task + 1})
+	}
 	return g
 }
 
@@ -159,7 +180,8 @@ func runYieldScenario(sc yScenario, idx int, seed int64, out string, watchdog ti
 	}
 	log.add(map[string]any{"ev": "reset", "n": n, "workers": sc.Workers, "keys": keys, "sc": idx, "label": sc.Label,
 		"maxdeps": sc.MaxDeps, "starve": sc.Starve})
-	s := &ySched{arrive: make(chan struct{}, 1), rng: rand.New(rand.NewSource(seed)), starve: sc.Starve}
+	s := &ySched{arrive: make(chan struct{}, 1), rng: rand.New(rand.NewSource(seed)), starve: sc.Starve, casTask: -1,
+		log: log.add}
 	executor.VerifYield = s.hook
 	e := executor.New(n, sc.Workers, int64(sc.MaxDeps), nil)
 	done := make(chan struct{})
@@ -218,7 +240,7 @@ func runYieldScenario(sc yScenario, idx int, seed int64, out string, watchdog ti
 	return hung, s.steps, s.overtak
 }
 
-var yPoints = []string{"", "", "task.done", "task.done", "task.done", "run.finish", "run.finish", "task.notify", "task.release", "task.fail",
+var yPoints = []string{"", "", "task.done", "task.done", "task.done", "task.fail", "task.fail", "f.mid", "run.finish", "run.finish", "task.notify", "task.release", "task.fail",
 	"task.check", "task.exec", "run.lock", "f.mid"}
 
 func genYieldList(rng *rand.Rand) yScenario {
@@ -288,11 +310,19 @@ func failureYieldLists() []yScenario {
 		}
 		return m
 	}
+	stopAt := func(sc yScenario, at int) yScenario {
+		sc.StopAt = at
+		return sc
+	}
 	return []yScenario{
 		mk("failure-writer-chain", 2, []bool{true, false, false}, k("1", "w"), k("1", "w"), k("1", "w")),
 		mk("failure-then-readers", 3, []bool{true, false, false, false}, k("1", "w"), k("1", "r"), k("1", "r"), k("2", "w")),
 		mk("failure-of-reader-then-writer", 3, []bool{false, true, false, false}, k("1", "w", "2", "w"), k("1", "r"), k("1", "w"),
 			k("2", "r")),
+		mk("failure-two-independent", 3, []bool{true, true, false}, k("1", "w"), k("2", "w"), k("3", "w")),
+		mk("failure-three-independent-readers", 4, []bool{true, true, true, false}, k("1", "r"), k("1", "r"), k("2", "w"), k("3", "w")),
+		stopAt(mk("failure-after-stop", 2, []bool{true, false, false}, k("1", "w"), k("2", "w"), k("1", "w")), 2),
+		stopAt(mk("failure-after-stop-2", 3, []bool{false, true, true}, k("1", "w"), k("2", "w"), k("3", "w")), 3),
 		mk("failure-two-keys", 4, []bool{true, false, false, false}, k("1", "w", "2", "w"), k("1", "r", "2", "w"), k("1", "w"),
 			k("2", "w")),
 	}
